@@ -80,7 +80,9 @@ AllLegal == UNION {LegalElems(ver) : ver \in VersionSet}
 (* misspellings of one legal value f *)
 Variants(f) ==
   { LowerB(f), UpperB(f), f \o <<78>>, <<32>> \o f, f \o <<32>>, f \o <<COLON>> \o f,
-    f \o <<0>>, f \o <<SLASH>>, <<9>> \o f, f \o <<10>> }
+    f \o <<0>>, f \o <<SLASH>>, <<9>> \o f, f \o <<10>>,
+    \* wrapping / separating punctuation a lenient reader might strip: ) ( " , ;
+    f \o <<41>>, <<40>> \o f, f \o <<34>>, f \o <<44>>, f \o <<59>> }
   \cup (IF Len(f) > 1
         THEN { SubSeq(f, 1, Len(f) - 1),                     \* proper prefix
                SubSeq(f, 1, Len(f) - 1) \o <<122>>,          \* same length, same first letter
@@ -99,7 +101,8 @@ IllegalValues(ver, m) == {v \in JunkValues(ver, m) : ValueOf(ver, m, v) = NoMetr
 JunkAbvs(ver, m) ==
   LET a == SB[m]
   IN  { LowerB(a), a \o <<32>>, <<32>> \o a, a \o <<88>>, SubSeq(a, 1, Len(a) - 1),
-        <<77>> \o a, a \o <<0>>, <<>>, <<90, 90>> }
+        <<77>> \o a, a \o <<0>>, <<>>, <<90, 90>>,
+        <<40>> \o a, <<34>> \o a, a \o <<41>>, <<9>> \o a, <<10>> \o a }
 IllegalAbvs(ver, m) == {a \in JunkAbvs(ver, m) : MetricOf(ver, a) = NoMetric}
 
 (* junk elements built around metric m: illegal values, illegal               *)
